@@ -45,7 +45,9 @@ enum class vf_enum : int32_t
     alpha,
     beta,
     gamma,
-    delta
+    delta,
+    alp,    // a proper prefix of an EARLIER enumerator's name
+    betamax // has an EARLIER enumerator's name as a proper prefix (like the library's aic / aicc)
 };
 
 enum class vf_other : int32_t
@@ -61,7 +63,9 @@ inline enum_map_t<vf_enum> enum_string<vf_enum>()
         {vf_enum::alpha, "alpha"},
         { vf_enum::beta,  "beta"},
         {vf_enum::gamma, "gamma"},
-        {vf_enum::delta, "delta"}
+        {vf_enum::delta, "delta"},
+        {vf_enum::alp, "alp"},
+        {vf_enum::betamax, "betamax"}
     };
 }
 
@@ -87,7 +91,7 @@ constexpr int64_t i64_max = std::numeric_limits<int64_t>::max();
 
 const std::vector<std::string>& enum_names()
 {
-    static const std::vector<std::string> names = {"alpha", "beta", "gamma", "delta"};
+    static const std::vector<std::string> names = {"alpha", "beta", "gamma", "delta", "alp", "betamax"};
     return names;
 }
 
@@ -185,7 +189,7 @@ struct model_t
         const auto c = [](bool le) { return le ? " <= " : " < "; };
         switch (kind)
         {
-        case K_ENUM: return cat("enum{alpha,beta,gamma,delta}=", sv);
+        case K_ENUM: return cat("enum{alpha,beta,gamma,delta,alp,betamax}=", sv);
         case K_INT: return cat(imin, c(min_le), iv1, c(max_le), imax);
         case K_REAL: return cat(fmin, c(min_le), fv1, c(max_le), fmax);
         case K_IPAIR: return cat(imin, c(min_le), iv1, c(val_le), iv2, c(max_le), imax);
@@ -1350,7 +1354,7 @@ std::vector<op_t> interesting_ops(const model_t& m)
     {
         ops.push_back(make_op(OP_STRING, 0, 0, 0, 0, s));
     }
-    for (int e = -1; e <= 5; ++e)
+    for (int e = -1; e <= 7; ++e)
     {
         ops.push_back(make_op(OP_ENUM, e));
     }
@@ -1456,7 +1460,7 @@ rc::Gen<model_t> gen_domain()
             base.val_le = (comps & 4) != 0;
             if (kind == K_ENUM)
             {
-                return rc::gen::map(gen::range<int>(0, 3),
+                return rc::gen::map(gen::range<int>(0, static_cast<int>(enum_names().size()) - 1),
                                     [base](int e)
                                     {
                                         auto m = base;
@@ -1621,7 +1625,7 @@ rc::Gen<op_t> gen_free_op()
                             }
                             if (op.type == OP_ENUM || op.type == OP_OTHER)
                             {
-                                op.i1 = ((op.i1 % 8) + 8) % 8 - 2;
+                                op.i1 = ((op.i1 % 10) + 10) % 10 - 2;
                             }
                             return op;
                         });
@@ -1874,8 +1878,9 @@ std::vector<op_t> combo_alphabet(const combo_t& c)
              S(""), S("1,x"), S("1 , 2"), F(1.0), I(1), make_op(OP_ENUM, 3)};
         break;
     case K_ENUM:
-        a = {S("alpha"), S("beta"), S("gamma"), S("delta"), S(""), S("Alpha"), S("alpha "), S("epsilon"), S("first"), make_op(OP_ENUM, 0),
-             make_op(OP_ENUM, 1), make_op(OP_ENUM, 2), make_op(OP_ENUM, 3), make_op(OP_ENUM, 4), make_op(OP_ENUM, -1), make_op(OP_OTHER, 0),
+        a = {S("alpha"), S("beta"), S("gamma"), S("delta"), S("alp"), S("betamax"), S(""), S("Alpha"), S("alpha "), S("epsilon"), S("first"),
+             make_op(OP_ENUM, 0), make_op(OP_ENUM, 1), make_op(OP_ENUM, 2), make_op(OP_ENUM, 3), make_op(OP_ENUM, 4), make_op(OP_ENUM, 5),
+             make_op(OP_ENUM, 6), make_op(OP_ENUM, -1), make_op(OP_OTHER, 0),
              make_op(OP_OTHER, 1), I(0), F(1.0), PI(0, 1)};
         break;
     default:
